@@ -3,6 +3,8 @@ package main
 // Case generator of C16. All randomness comes from the given Rng; keys are
 // generated from it (RSA 1024/2048 always, 3072/4096 in the thorough tier; the
 // quick tier uses the two fixed test keys of fixedkeys.go for those sizes).
+// Whole AMD images (key chain, RTM volume, signed PSP binaries) are built by the
+// reference writer of amdimage.go (oracle p_amd_image, C op rtm_validate).
 
 import (
 	"crypto"
@@ -23,6 +25,7 @@ import (
 type pool struct {
 	big4096                            int // one in big4096 PSB oracle cases uses a 4096-bit key
 	rsa1024, rsa2048, rsa3072, rsa4096 []*rsa.PrivateKey
+	extra2048                          *rsa.PrivateKey // a third 2048-bit key for the key chains of p_amd_image
 	ecc                                []*ecdsa.PrivateKey
 	sm                                 []*sm2.PrivateKey
 }
@@ -73,6 +76,7 @@ func newPool(r *Rng, tier string) *pool {
 		}
 		p.sm = append(p.sm, s)
 	}
+	p.extra2048 = mustRSA(r.Fork(250), 2048)
 	return p
 }
 
@@ -514,6 +518,14 @@ func genSignOracles(r *Rng, p *pool, tier string, it int, emit Emit) {
 	e := p.ecc[r.Intn(len(p.ecc))]
 	emit("P", "p_key_roundtrip", "ecc", Big(e.X), Big(e.Y))
 	emit("P", "p_key_roundtrip", "sm2", Big(s.X), Big(s.Y))
+	// ECDSA with the remaining hash algorithms of the library
+	if it%4 == 1 {
+		rh := r.Fork(88)
+		e := p.ecc[rh.Intn(len(p.ecc))]
+		o := p.ecc[(indexOfECC(p, e)+1)%len(p.ecc)]
+		emit("P", "p_sign_verify", privSpec(e), privSpec(o), N(uint64(rh.Pick(int(cbnt.AlgECDSA), 0))), N(uint64(rh.Pick(int(cbnt.AlgSHA1), int(cbnt.AlgSM3)))),
+			H(rh.Bytes(rh.Pick(1, 19, 20, 21, 32, 90))), N(rh.U64()>>1), all)
+	}
 }
 
 func indexOfECC(p *pool, k *ecdsa.PrivateKey) int {
@@ -627,6 +639,51 @@ func genSegs(r *Rng, fwLen int, valid bool) []segArg {
 	return out
 }
 
+// segment lists at the boundaries: the whole image, segments that start at the first or end with the last byte
+// of the image, empty segments (also at the very end), adjacent, overlapping and repeated segments, non-hashed
+// segments that are not backed by the image; every hashed segment lies inside the image
+func genSegsBoundary(r *Rng, fwLen int) []segArg {
+	start := uint64(1)<<32 - uint64(fwLen)
+	var out []segArg
+	pOff, pSize := 0, 0
+	for i, n := 0, r.Pick(1, 2, 3, 4, 6); i < n; i++ {
+		off, size := 0, 0
+		flags := uint16(r.Pick(0, 0, 0, 0, 2, 0xfffe))
+		switch r.Intn(9) {
+		case 0:
+			size = fwLen
+		case 1: // ends with the last byte
+			size = r.Range(0, fwLen)
+			off = fwLen - size
+		case 2: // starts with the first byte
+			size = r.Range(0, fwLen)
+		case 3: // empty
+			off = r.Range(0, fwLen-1)
+		case 4: // directly behind the previous one
+			off = pOff + pSize
+			size = r.Range(0, fwLen-off)
+		case 5: // overlapping the previous one
+			off = pOff + pSize/2
+			size = r.Range(0, fwLen-off)
+		case 6: // the previous one again
+			off, size = pOff, pSize
+		case 7: // not hashed (inside the image, like every segment of a well-formed manifest)
+			flags = uint16(r.Pick(1, 3, 0xffff))
+			size = r.Range(0, fwLen)
+			off = r.Range(0, fwLen-size)
+		default:
+			size = r.Range(0, fwLen)
+			off = r.Range(0, fwLen-size)
+		}
+		if off >= fwLen { // base 4 GiB does not fit the 32-bit field: the last byte, or nothing of it
+			off, size = fwLen-1, r.Intn(2)
+		}
+		out = append(out, segArg{flags: flags, base: uint32(start + uint64(off)), size: uint32(size)})
+		pOff, pSize = off, size
+	}
+	return out
+}
+
 func segArgs(s []segArg) []string {
 	a := []string{N(uint64(len(s)))}
 	for _, g := range s {
@@ -715,6 +772,18 @@ func genIbb(r *Rng, tier string, it int, emit Emit) {
 		psegs := genSegs(r, pl, true)
 		emit("P", "p_ibb", append(append([]string{"cbnt", N(uint64(r.Pick(4, 0xb, 0xc, 0xd, 0x12))), H(pfw)}, segArgs(psegs)...), N(r.U64()>>1), tierFlag(tier))...)
 		emit("P", "p_ibb", append(append([]string{"bg", N(uint64(r.Pick(4, 0xb))), H(pfw)}, segArgs(psegs)...), N(r.U64()>>1), tierFlag(tier))...)
+	} else {
+		rb := r.Fork(9)
+		pl := rb.Pick(1, 16, 100, 255, 256, 257, 300)
+		pfw := rb.Bytes(pl)
+		psegs := genSegsBoundary(rb, pl)
+		emit("P", "p_ibb", append(append([]string{"cbnt", N(uint64(rb.Pick(4, 0xb, 0xc, 0xd, 0x12))), H(pfw)}, segArgs(psegs)...), N(rb.U64()>>1), tierFlag(tier))...)
+		emit("P", "p_ibb", append(append([]string{"bg", N(uint64(rb.Pick(4, 0xb))), H(pfw)}, segArgs(psegs)...), N(rb.U64()>>1), tierFlag(tier))...)
+		// the same lists through the model
+		emit("C", "ibb_ranges", append([]string{N(uint64(pl))}, segArgs(psegs)...)...)
+		st, _ := ibbStream(pfw, psegs)
+		emit("C", "ibb_validate", append(append([]string{"1", "1", N(0xb), H(sha256Of(st))}, segArgs(psegs)...), H(pfw))...)
+		emit("C", "bg_ibb_validate", append(append([]string{"1", N(0xb), H(sha256Of(st))}, segArgs(psegs)...), H(pfw))...)
 	}
 }
 
@@ -794,6 +863,16 @@ func genPsb(r *Rng, p *pool, tier string, it int, emit Emit) {
 	case 16: // payload of zero bytes: nothing beyond the header
 		putU32(raw, offComp, 1)
 		putU32(raw, offCSize, 0)
+	case 17: // two keys in the set: the header names the first, the signature was made by the second
+		o := p.rsa2048[0]
+		if o == k || k.Size() != o.Size() {
+			o = p.rsa2048[1]
+		}
+		if o != k && o.Size() == k.Size() {
+			l2 := buildPSP(r, o, id, conv, payload, gap, tail)
+			raw = exact(l2.raw)
+			keys = [][]byte{keyRaw, psbRootKeyBytes(&o.PublicKey, r.Bytes(16), 0, r)}
+		}
 	}
 	args := []string{N(uint64(len(keys)))}
 	for _, kr := range keys {
@@ -849,6 +928,19 @@ func genToken(r *Rng, p *pool, tier string, it int, emit Emit) {
 		raw = buildToken(r, big, root, rootID, 0)
 		putU32(raw, 56, 0)
 		raw = raw[:r.Pick(64+512+256, 900, 64+1024-1, 64+1024)]
+	case 10: // a token that names itself as its certifier and is signed with its own key
+		n := tk.Size()
+		selfID := r.Bytes(16)
+		body := psbKeyBytes(uint32(r.U64()), selfID, selfID, uint32(r.Pick(0, 8)), r.Bytes(16), uint32(n*8), uint32(n*8),
+			leBytes(big.NewInt(int64(tk.E)), n), leBytes(tk.N, n))
+		raw = append(body, reversed(pssSign(tk, body, r))...)
+	case 11: // certified by the second key of the set, which has another size than the token's key
+		o := p.rsa4096[0]
+		oid := r.Bytes(16)
+		keys = [][]byte{rootRaw, psbRootKeyBytes(&o.PublicKey, oid, 0, r)}
+		raw = buildToken(r, &tk.PublicKey, o, oid, 8)
+		sl := 64 + 2*tk.Size()
+		table = []string{Big(o.N), I(int64(o.E)), "c", H(raw[:sl]), H(reversed(raw[sl : sl+o.Size()]))}
 	}
 	args := []string{N(uint64(len(keys)))}
 	for _, kr := range keys {
@@ -873,6 +965,31 @@ func genToken(r *Rng, p *pool, tier string, it int, emit Emit) {
 	}
 }
 
+// whole AMD images: key chain (AMD root key, key database, ABL and OEM tokens), RTM volume, signed PSP binaries
+func genAmdImage(r *Rng, p *pool, tier string, it int, emit Emit) {
+	k2 := []*rsa.PrivateKey{p.rsa2048[0], p.rsa2048[1], p.extra2048}
+	for i := len(k2) - 1; i > 0; i-- {
+		j := r.Intn(i + 1)
+		k2[i], k2[j] = k2[j], k2[i]
+	}
+	amd, oem, other := k2[0], k2[1], k2[2]
+	abl, dbk := p.rsa1024[r.Intn(len(p.rsa1024))], other
+	switch r.Intn(4) {
+	case 0: // a 4096-bit root key
+		amd, other = p.rsa4096[r.Intn(len(p.rsa4096))], amd
+	case 1: // a 4096-bit OEM key
+		oem, abl = p.rsa4096[r.Intn(len(p.rsa4096))], oem
+	case 2: // small database key: only the root key certifies
+		dbk, abl = p.rsa1024[r.Intn(len(p.rsa1024))], other
+	}
+	level := 1 + (it/6)%2
+	emit("P", "p_amd_image", privSpec(amd), privSpec(oem), privSpec(abl), privSpec(dbk), privSpec(other), N(uint64(level)), N(r.U64()>>1), tierFlag(tier))
+	rc := r.Fork(3)
+	for i := 0; i < 3; i++ {
+		genRtmCases(rc, amdKeys{amd: amd, oem: oem, abl: abl, dbk: dbk, other: other}, uint(1+rc.Intn(2)), emit)
+	}
+}
+
 func gen(r *Rng, tier string, emit Emit) {
 	n := 60
 	if tier == "thorough" {
@@ -892,5 +1009,8 @@ func gen(r *Rng, tier string, emit Emit) {
 		genPsb(rr.Fork(16), p, tier, 1, emit)
 		genToken(rr.Fork(7), p, tier, it, emit)
 		genToken(rr.Fork(17), p, tier, 1, emit)
+		if it%6 == 2 || (tier == "thorough" && it%12 == 5) {
+			genAmdImage(rr.Fork(18), p, tier, it, emit)
+		}
 	}
 }
